@@ -203,9 +203,9 @@ class Inquiry(SCSICommand):
     _ata_identify_bits = {
         "general_config": [0xFFFFFFFF, 0],
         "specific_config": [0xFFFFFFFF, 4],
-        "serial_number": ("w", 10, 10),
-        "firmware_rev": ("w", 23, 4),
-        "model_number": ("w", 27, 20),
+        "serial_number": ("w", 20, 10),
+        "firmware_rev": ("w", 46, 4),
+        "model_number": ("w", 54, 20),
     }
 
     _ata_identify_gen_conf_bits = {
@@ -388,7 +388,7 @@ class Inquiry(SCSICommand):
     def unmarshall_ata_information(cls, data):
         result = {}
         _sig = data[36:41]
-        _identify = data[44:]
+        _identify = data[60:]
         convert.decode_bits(data, cls._ata_information_bits, result)
         _r = {}
         convert.decode_bits(_sig, cls._ata_signature_bits, _r)
